@@ -195,6 +195,11 @@ type connT struct {
 	failed bool     // Connect() failed or timed out
 	taints []string // local-reset | remote-reset | go-away
 	noRead bool     // async pools: the connection's reader goroutine is known to have exited
+	// doomed: the taint happened while the connection carried a stream, i.e. while nobody else could
+	// lease it legitimately; every later lease of it is a violation whatever the interleaving
+	doomed bool
+	// envClosed: the environment (peer / harness) closed the connection, as opposed to the pool itself
+	envClosed bool
 }
 
 // open is read from the fake connection itself (a connection may be registered by the model while
@@ -252,6 +257,7 @@ type world struct {
 	poisoned       bool   // a stream was leased on a connection nobody reads (async pools) or an event self-deadlocked: no event can be applied safely any more
 	stuck          bool   // a goroutine is (or would be) stuck inside this world: never touch or clean it up
 	sched          bool   // schedule mode (E1): events run on threads of the controlled scheduler
+	envMayClose    bool   // schedule mode: a pool Close/Shutdown runs or ran concurrently (the pool may close idle connections on the environment's behalf)
 	deadlock       string // class of the self-deadlock the last event ran into
 	deadlockDetail string
 	base           [4]int64
@@ -460,6 +466,7 @@ func (w *world) apply(ev string) (outcome string) {
 		}
 		if name == "reply+goaway" {
 			taint(s.c, "go-away")
+			s.c.doomed = true
 		}
 		s.ended, s.endCause = true, "reply"
 		if !w.inject(s.c, b) {
@@ -494,6 +501,7 @@ func (w *world) apply(ev string) (outcome string) {
 		s.ended, s.endCause = true, "local-reset"
 		if w.d.Kind() == PingPong {
 			taint(s.c, "local-reset")
+			s.c.doomed = true
 		}
 		s.sender.GetStream().ResetStream(types.StreamLocalReset)
 		return "reset"
@@ -502,6 +510,7 @@ func (w *world) apply(ev string) (outcome string) {
 		if c == nil {
 			return "bad"
 		}
+		c.envClosed = true
 		if name == "rclose" {
 			c.fc.RemoteClose()
 		} else {
@@ -515,6 +524,9 @@ func (w *world) apply(ev string) (outcome string) {
 			return "bad"
 		}
 		taint(c, "go-away")
+		if len(w.inflightOn(c)) > 0 {
+			c.doomed = true
+		}
 		if !w.inject(c, w.d.GoAwayBytes()) {
 			return "bad"
 		}
